@@ -15,6 +15,11 @@ import MagpyVerif.Gen.Const
 import MagpyVerif.Lemmas.TrimeshInside
 import MagpyVerif.Props.C15
 import MagpyVerif.Model.Polyline
+import MagpyVerif.Model.Excitation
+import MagpyVerif.Model.InOut
+import MagpyVerif.Lemmas.Level2Compose
+import MagpyVerif.Lemmas.OctaCarrier
+import Mathlib.Analysis.Real.Pi.Bounds
 namespace MagpyVerif.C02
 open MagpyVerif MagpyVerif.Kern
 
@@ -493,4 +498,588 @@ theorem cylseg_internal_consistent (μ : ℝ) (hμ : μ ≠ 0) (S : SegSpecial) 
     simp only [Option.some.injEq] at hb hH hj hm
     subst hb hH hj hm
     exact ⟨hallo _ _ hbo hho, ejmo⟩
+end MagpyVerif.C02
+
+/-! ## added by c02sync: excitation attributes over assignment histories, the keyword `in_out`, J / M in the observer frame -/
+
+namespace MagpyVerif.C02
+open MagpyVerif MagpyVerif.Kern MagpyVerif.Exc
+
+/-! ### excitation_sync: the polarization / magnetization attributes over assignment histories -/
+
+/-- the regenerated statement skeletons of the two setters, the getters and the constructor are the ones
+Model/Excitation.lean implements (a source edit that changes a statement breaks this theorem) -/
+theorem excitation_skeleton_is_modelled :
+    Gen.ExcSync.magSetter =
+      ["_magnetization := check_format_input_vector(arg, allow_None=True, dims=(1,), shape_m1=3)",
+       "if _magnetization is None: _polarization := None; return",
+       "_polarization := _magnetization mul CONST",
+       "if norm(_magnetization) < THRESHOLD: warn"] ∧
+    Gen.ExcSync.polSetter =
+      ["_polarization := check_format_input_vector(arg, allow_None=True, dims=(1,), shape_m1=3)",
+       "if _polarization is None: _magnetization := None; return",
+       "_magnetization := _polarization div CONST"] ∧
+    Gen.ExcSync.getters = ["polarization: return self._polarization", "magnetization: return self._magnetization"] ∧
+    Gen.ExcSync.init =
+      ["super().__init__", "_polarization := None", "_magnetization := None",
+       "if magnetization is not None: self.magnetization = magnetization; if polarization is not None: raise ValueError",
+       "if polarization is not None: self.polarization = polarization"] ∧
+    Gen.ExcSync.warnCategory = "MagpylibDeprecationWarning" ∧ Gen.ExcSync.warnThreshold = 2000 :=
+  ⟨rfl, rfl, rfl, rfl, rfl, rfl⟩
+
+/-- one constant expression in both setters; the magnetization setter multiplies by it, the polarization setter divides -/
+theorem setters_use_one_constant :
+    Gen.ExcSync.magToPolConst = Gen.ExcSync.polToMagConst ∧ Gen.ExcSync.magToPolOp = .mul ∧
+      Gen.ExcSync.polToMagOp = .div ∧ Gen.ExcSync.magToPolBits = Gen.ExcSync.polToMagBits := by decide
+
+/-- μ_set: the value of the setters' constant expression in exact real arithmetic, when the carrier's exported mu_0 is `μ`
+(the expression on this tree does not mention the exported constant, so the value does not depend on `μ`) -/
+noncomputable def muSet (μ : ℝ) : ℝ := @cMagToPol ℝ (realNum μ)
+
+theorem muSet_eq (μ : ℝ) : muSet μ = 4 * Real.pi * (1 / 10000000) := by
+  simp [muSet, cMagToPol, Gen.ExcSync.magToPolConst, CExpr.eval, n]
+
+theorem muSet_pos (μ : ℝ) : 0 < muSet μ := by rw [muSet_eq]; positivity
+
+theorem cPolToMag_eq (μ : ℝ) : @cPolToMag ℝ (realNum μ) = muSet μ := rfl
+
+/-- the pair of attributes describes ONE excitation with the constant `k`: both `None`, or both set with J = k·M -/
+def InSync (k : ℝ) (st : St ℝ) : Prop :=
+  match st.pol, st.mag with
+  | none, none => True
+  | some J, some M => J = @vs ℝ (realNum k) k M
+  | _, _ => False
+
+section
+variable (μ : ℝ)
+
+theorem setMag_sync (st : St ℝ) (a : Arg ℝ) (h : InSync (muSet μ) st) :
+    InSync (muSet μ) (@setMag ℝ (realNum μ) st a).1 := by
+  cases a with
+  | none => simp [setMag, InSync]
+  | bad => simpa [setMag] using h
+  | vec v =>
+    simp only [setMag, InSync, Gen.ExcSync.magToPolOp, BinOp.apply]
+    apply V3.ext' <;> simp [vs, muSet] <;> ring
+
+theorem setPol_sync (st : St ℝ) (a : Arg ℝ) (h : InSync (muSet μ) st) :
+    InSync (muSet μ) (@setPol ℝ (realNum μ) st a).1 := by
+  cases a with
+  | none => simp [setPol, InSync]
+  | bad => simpa [setPol] using h
+  | vec v =>
+    have hc := (muSet_pos μ).ne'
+    simp only [setPol, InSync, Gen.ExcSync.polToMagOp, BinOp.apply, cPolToMag_eq]
+    apply V3.ext' <;> simp [vs] <;> field_simp
+
+/-- one assignment keeps the pair in sync -/
+theorem step_preserves_sync (st : St ℝ) (op : Exc.Op ℝ) (h : InSync (muSet μ) st) :
+    InSync (muSet μ) (@step ℝ (realNum μ) st op).1 := by
+  cases op with
+  | setPol a => exact setPol_sync μ st a h
+  | setMag a => exact setMag_sync μ st a h
+
+/-- every state a constructor call leaves behind is in sync -/
+theorem construct_in_sync (strict : Bool) (mag pol : Arg ℝ) (st : St ℝ) (o : Outcome)
+    (h : @construct ℝ (realNum μ) strict mag pol = .ok (st, o)) : InSync (muSet μ) st := by
+  have h0 : InSync (muSet μ) ({ pol := none, mag := none } : St ℝ) := by simp [InSync]
+  unfold construct at h
+  simp only at h
+  split at h
+  · split at h
+    · cases h; exact h0
+    · have := setPol_sync μ _ pol h0
+      generalize @setPol ℝ (realNum μ) { pol := none, mag := none } pol = r at h this
+      rcases r with ⟨s, _ | _ | e⟩ <;> simp at h <;> (obtain ⟨rfl, rfl⟩ := h; exact this)
+  · have := setMag_sync μ _ mag h0
+    generalize @setMag ℝ (realNum μ) { pol := none, mag := none } mag = r at h this
+    rcases r with ⟨s, _ | _ | e⟩ <;> simp at h
+    all_goals
+      split at h
+      · cases h
+      · split at h
+        · cases h
+        · simp only [Except.ok.injEq, Prod.mk.injEq] at h
+          obtain ⟨rfl, rfl⟩ := h; exact this
+
+/-- **excitation_sync**: for every constructor call that yields an object and every assignment history on it (valid
+vectors, `None`, refused values, in any order and number), after EVERY operation the two attributes are both `None` or
+both set with `polarization = μ_set · magnetization`, μ_set the constant the setters are written with -/
+theorem excitation_sync (strict : Bool) (mag pol : Arg ℝ) (st : St ℝ) (o : Outcome)
+    (hc : @construct ℝ (realNum μ) strict mag pol = .ok (st, o)) (ops : List (Exc.Op ℝ)) :
+    InSync (muSet μ) st ∧ (∀ r ∈ @run ℝ (realNum μ) st ops, InSync (muSet μ) r.1) ∧
+      InSync (muSet μ) (@final ℝ (realNum μ) st ops) := by
+  have h0 := construct_in_sync μ strict mag pol st o hc
+  refine ⟨h0, ?_, ?_⟩
+  · clear hc
+    induction ops generalizing st with
+    | nil => intro r hr; simp [run] at hr
+    | cons op ops ih =>
+      intro r hr
+      simp only [run, List.mem_cons] at hr
+      rcases hr with rfl | hr
+      · exact step_preserves_sync μ st op h0
+      · exact ih _ (step_preserves_sync μ st op h0) r hr
+  · clear hc
+    unfold final
+    induction ops generalizing st with
+    | nil => exact h0
+    | cons op ops ih => exact ih _ (step_preserves_sync μ st op h0)
+
+/-- a rejected assignment (the validator refuses the value) raises the library's input error and leaves BOTH attributes
+as they were; and these are the only assignments that end in an error of the model -/
+theorem rejected_assignment_keeps_state (st : St ℝ) (op : Exc.Op ℝ) (e : Err)
+    (h : (@step ℝ (realNum μ) st op).2 = .err e) :
+    (@step ℝ (realNum μ) st op).1 = st ∧ e = .badUserInput := by
+  rcases op with a | a <;> rcases a with _ | v | _ <;> simp [step, setPol, setMag] at h ⊢
+  · exact h.symm
+  · split at h <;> simp at h
+  · exact h.symm
+
+/-- a refused value is rejected whatever the state -/
+theorem bad_value_is_rejected (st : St ℝ) :
+    @step ℝ (realNum μ) st (.setPol .bad) = (st, .err .badUserInput) ∧
+    @step ℝ (realNum μ) st (.setMag .bad) = (st, .err .badUserInput) := ⟨rfl, rfl⟩
+
+/-- the constructor with BOTH excitations given never yields an object: the validator's error for a refused
+magnetization, otherwise `ValueError` (or, with escalated warnings, the low-magnetization warning raised first) -/
+theorem constructor_both_given_is_error (strict : Bool) (mag pol : Arg ℝ) (hm : mag.isNone = false) (hp : pol.isNone = false) :
+    ∃ e, @construct ℝ (realNum μ) strict mag pol = .error e := by
+  unfold construct
+  simp only [hm, hp, Bool.false_eq_true, if_false, Bool.not_false, if_true]
+  generalize @setMag ℝ (realNum μ) { pol := none, mag := none } mag = r
+  rcases r with ⟨s, _ | _ | e⟩ <;> simp only [Outcome.raises, Bool.false_eq_true, if_false]
+  · exact ⟨_, rfl⟩
+  · cases strict <;> exact ⟨_, rfl⟩
+  · exact ⟨_, rfl⟩
+/-- … and with a valid magnetization of ordinary size it is the plain `ValueError` -/
+theorem constructor_both_given_value_error (strict : Bool) (v : V3 ℝ) (pol : Arg ℝ) (hp : pol.isNone = false)
+    (hv : @lowNorm ℝ (realNum μ) v = false) :
+    @construct ℝ (realNum μ) strict (.vec v) pol = .error .valueError := by
+  cases pol <;> simp_all [construct, setMag, Arg.isNone, Outcome.raises]
+
+/-- FULL (`excitation_sync` with the exported constant, what the property asks: "J = mu_0·M with the single exported
+constant"): ∀ histories, polarization = mu_0 · magnetization.  False on this tree (known finding mu0-literal).
+Proved: it holds **iff** the setters' constant equals the exported one -/
+theorem excitation_sync_exported_mu0_partial :
+    (∀ (strict : Bool) (mag pol : Arg ℝ) (st : St ℝ) (o : Outcome) (ops : List (Exc.Op ℝ)),
+      @construct ℝ (realNum μ) strict mag pol = .ok (st, o) →
+        InSync μ st ∧ ∀ r ∈ @run ℝ (realNum μ) st ops, InSync μ r.1) ↔ muSet μ = μ := by
+  constructor
+  · intro h
+    have h1 := (h false .none (.vec ⟨1, 0, 0⟩) _ _ [] rfl).1
+    simp only [InSync, Gen.ExcSync.polToMagOp, BinOp.apply, cPolToMag_eq] at h1
+    have hx := congrArg V3.x h1
+    simp [vs] at hx
+    have hc := (muSet_pos μ).ne'
+    field_simp at hx
+    linarith
+  · intro h strict mag pol st o ops hc
+    have := excitation_sync μ strict mag pol st o hc ops
+    rw [h] at this
+    exact ⟨this.1, this.2.1⟩
+end
+
+/-- the exported `magpylib.mu_0` as an exact real number (the double scipy provides: 1.25663706127e-6 rounded) -/
+noncomputable def exportedMu0 : ℝ := (Gen.ExcSync.exportedNum : ℝ) / (Gen.ExcSync.exportedDen : ℝ)
+
+/-- **witness of the known finding `mu0-literal:BaseMagnet-setters`**: on this tree the setters' constant 4π·10⁻⁷ is NOT
+the exported mu_0 (π > 3.14159265358979 while exported/4·10⁷ = 3.14159265317…), so by
+`excitation_sync_exported_mu0_partial` sync with the exported constant fails for some history -/
+theorem setter_constant_is_not_exported : muSet exportedMu0 ≠ exportedMu0 := by
+  rw [muSet_eq]
+  unfold exportedMu0 Gen.ExcSync.exportedNum Gen.ExcSync.exportedDen
+  have hpi := Real.pi_gt_d20
+  intro h
+  have : Real.pi = 5934300739273257 / 4722366482869645213696 * 10000000 / 4 := by
+    push_cast at h; linarith
+  rw [this] at hpi
+  norm_num at hpi
+
+/-- … and the history that shows it: `Cuboid(polarization=(1,0,0))` is not in sync with the exported constant -/
+theorem exported_mu0_sync_fails :
+    ∃ (st : St ℝ) (o : Outcome), @construct ℝ (realNum exportedMu0) false .none (.vec ⟨1, 0, 0⟩) = .ok (st, o) ∧
+      ¬ InSync exportedMu0 st := by
+  refine ⟨_, _, rfl, ?_⟩
+  intro h
+  have := (excitation_sync_exported_mu0_partial exportedMu0).mp
+  apply setter_constant_is_not_exported
+  -- the one-step history of the iff's proof
+  simp only [InSync, Gen.ExcSync.polToMagOp, BinOp.apply, cPolToMag_eq] at h
+  have hx := congrArg V3.x h
+  simp [vs] at hx
+  have hc := (muSet_pos exportedMu0).ne'
+  field_simp at hx
+  linarith
+
+/-- the same in IEEE double, as Python computes the two values: the bit patterns differ; the exported pattern is the one
+Gen.Const records for `magpylib.mu_0` and the field functions use -/
+theorem setter_constant_bits_differ :
+    Gen.ExcSync.magToPolBits ≠ Gen.ExcSync.exportedBits ∧ Gen.ExcSync.exportedBits = Gen.Const.mu0Bits := by decide
+
+/-- with warnings escalated to errors the magnetization setter raises AFTER both attributes were written: such an
+assignment ends in an exception and yet changes the state (to a state in sync) — only the validator's rejections keep it -/
+theorem warned_assignment_writes_state :
+    let st0 : St ℝ := { pol := none, mag := none }
+    let r := @step ℝ (realNum 1) st0 (.setMag (.vec ⟨1, 0, 0⟩))
+    r.2 = .warned ∧ r.2.raises true = true ∧ r.1.mag = some ⟨1, 0, 0⟩ ∧ r.1.pol ≠ none ∧ InSync (muSet 1) r.1 := by
+  have hl : @lowNorm ℝ (realNum 1) ⟨1, 0, 0⟩ = true := by
+    simp [lowNorm, Kern.norm, Gen.ExcSync.warnThreshold, n]
+  refine ⟨?_, ?_, ?_, ?_, ?_⟩
+  · simp [step, setMag, hl]
+  · simp [step, setMag, hl, Outcome.raises]
+  · simp [step, setMag]
+  · simp [step, setMag]
+  · exact step_preserves_sync 1 _ _ (by simp [InSync])
+
+-- non-vacuity of `excitation_sync`: a constructor call that yields an object, followed by a history with a valid
+-- magnetization, a refused value and `None`
+example : ∃ st o, @construct ℝ (realNum 1) false .none (.vec ⟨0, 0, 1⟩) = .ok (st, o) ∧ st.pol = some ⟨0, 0, 1⟩ ∧
+    (@run ℝ (realNum 1) st [.setMag (.vec ⟨3000, 0, 0⟩), .setPol .bad, .setMag .none]).map (·.2) =
+      [.ok, .err .badUserInput, .ok] := by
+  refine ⟨_, _, rfl, rfl, ?_⟩
+  have hl : @lowNorm ℝ (realNum 1) ⟨3000, 0, 0⟩ = false := by
+    simp [lowNorm, Kern.norm, Gen.ExcSync.warnThreshold, n]
+    norm_num
+  simp [run, step, setMag, setPol, hl]
+end MagpyVerif.C02
+
+namespace MagpyVerif.C02
+open MagpyVerif MagpyVerif.Kern MagpyVerif.Kern.CylSeg
+
+/-! ### the keyword `in_out` (Model/InOut.lean) -/
+
+/-- the regenerated facts the model of `in_out` rests on: exactly the core functions of Tetrahedron and TriangularMesh have
+the parameter; getBH_level1 drops the keyword for every other function; `point_inside` and `BHJM_magnet_trimesh` branch on
+the value as modelled.  A source edit that changes a signature or a branch breaks this theorem. -/
+theorem inout_table_is_modelled :
+    (Gen.InOut.table.filter fun r => r.2.2).map (fun r => r.1) = ["Tetrahedron", "TriangularMesh"] ∧
+    Gen.InOut.level1Filter = ["if not has_parameter(field_func, 'in_out'): kwargs.pop('in_out', None)"] ∧
+    Gen.InOut.level1Call = ["BH = field_func(field=field, observers=pos_rel_rot, **kwargs)"] ∧
+    Gen.InOut.pointInsideBranches =
+      ["if in_out == 'inside': return np.array([True] * len(points))",
+       "if in_out == 'outside': return np.array([False] * len(points))"] ∧
+    Gen.InOut.tetraUses =
+      ["field 'J': point_inside(observers, vertices, in_out)", "field 'M': point_inside(observers, vertices, in_out)",
+       "field 'B': point_inside(observers, vertices, in_out)"] ∧
+    Gen.InOut.trimeshBranches = ["if in_out == 'auto': prev_ind = 0 [else]", "if in_out == 'inside': BHJM += polarization"] :=
+  ⟨by decide, rfl, rfl, rfl, rfl, rfl⟩
+
+theorem hasInOut_values :
+    hasInOut "Cuboid" = false ∧ hasInOut "Cylinder" = false ∧ hasInOut "CylinderSegment" = false ∧
+    hasInOut "Sphere" = false ∧ hasInOut "Tetrahedron" = true ∧ hasInOut "TriangularMesh" = true := by decide
+
+section
+variable (μ : ℝ)
+
+theorem pointInsideIO_chirality (io : InOut) (v0 v1 v2 v3 x : V3 ℝ) : letI := realNum μ
+    pointInsideIO io (tetraChirality v0 v1 v2 v3).1 (tetraChirality v0 v1 v2 v3).2.1
+      (tetraChirality v0 v1 v2 v3).2.2.1 (tetraChirality v0 v1 v2 v3).2.2.2 x = pointInsideIO io v0 v1 v2 v3 x := by
+  cases io <;> simp only [pointInsideIO, tetraInside_chirality]
+
+/-- the Tetrahedron wrapper with `in_out` is the abstract dispatch `wrapH` with the verdict of `point_inside(…, in_out)` -/
+theorem tetraIO_wrapH (io : InOut) (f : Field) (v0 v1 v2 v3 pol x : V3 ℝ) : letI := realNum μ
+    bhjmTetraIO io f v0 v1 v2 v3 pol x =
+      wrapH f (pointInsideIO io v0 v1 v2 v3 x) pol (tetraSheets μ v0 v1 v2 v3 pol x) := by
+  cases f
+  case J => rfl
+  case M => rfl
+  case H => simp only [bhjmTetraIO, bhjmTetra, bhjmTriangle, wrapH, tetraSheets, vd_add4]
+  case B =>
+    simp only [bhjmTetraIO, bhjmTriangle, wrapH, tetraSheets, pointInsideIO_chirality]
+    split_ifs
+    · rfl
+    · rw [add_zero3]
+
+/-- **Tetrahedron, all modes**: B = μ₀H + J and J = μ₀M whatever `in_out` is (also a misspelt value), at every observer -/
+theorem tetra_inout_consistent (hμ : μ ≠ 0) (io : InOut) (v0 v1 v2 v3 pol x : V3 ℝ) : letI := realNum μ
+    bhjmTetraIO io .B v0 v1 v2 v3 pol x = vs μ (bhjmTetraIO io .H v0 v1 v2 v3 pol x) + bhjmTetraIO io .J v0 v1 v2 v3 pol x ∧
+    bhjmTetraIO io .J v0 v1 v2 v3 pol x = vs μ (bhjmTetraIO io .M v0 v1 v2 v3 pol x) := by
+  simp only [tetraIO_wrapH μ]
+  exact wrapH_consistent μ hμ _ _ _
+
+/-- 'auto' (and any value other than 'inside' / 'outside') is the wrapper without the keyword: the existing theorems apply -/
+theorem tetra_inout_auto (f : Field) (v0 v1 v2 v3 pol x : V3 ℝ) : letI := realNum μ
+    bhjmTetraIO .auto f v0 v1 v2 v3 pol x = bhjmTetra f v0 v1 v2 v3 pol x ∧
+    bhjmTetraIO .other f v0 v1 v2 v3 pol x = bhjmTetra f v0 v1 v2 v3 pol x := by
+  constructor <;> cases f <;> rfl
+
+/-- 'inside': J is the polarization at EVERY observer, M = J/μ₀, and B = μ₀H + polarization -/
+theorem tetra_inout_inside (hμ : μ ≠ 0) (v0 v1 v2 v3 pol x : V3 ℝ) : letI := realNum μ
+    bhjmTetraIO .inside .J v0 v1 v2 v3 pol x = pol ∧ bhjmTetraIO .inside .M v0 v1 v2 v3 pol x = vd pol μ ∧
+    bhjmTetraIO .inside .B v0 v1 v2 v3 pol x = vs μ (bhjmTetraIO .inside .H v0 v1 v2 v3 pol x) + pol := by
+  refine ⟨rfl, rfl, ?_⟩
+  have := (tetra_inout_consistent μ hμ .inside v0 v1 v2 v3 pol x).1
+  rw [this]; rfl
+
+/-- 'outside': J = M = 0 at EVERY observer and B = μ₀H -/
+theorem tetra_inout_outside (hμ : μ ≠ 0) (v0 v1 v2 v3 pol x : V3 ℝ) : letI := realNum μ
+    bhjmTetraIO .outside .J v0 v1 v2 v3 pol x = zero3 ∧ bhjmTetraIO .outside .M v0 v1 v2 v3 pol x = zero3 ∧
+    bhjmTetraIO .outside .B v0 v1 v2 v3 pol x = vs μ (bhjmTetraIO .outside .H v0 v1 v2 v3 pol x) := by
+  refine ⟨rfl, ?_, ?_⟩
+  · apply V3.ext' <;> simp [bhjmTetraIO, pointInsideIO, vd, zero3, n]
+  · have := (tetra_inout_consistent μ hμ .outside v0 v1 v2 v3 pol x).1
+    rw [this]
+    exact add_zero3 μ _
+
+/-- a TRUTHFUL override changes nothing: if 'inside' is given for an observer the barycentric test finds inside, or
+'outside' for one it finds outside, all four fields are those of 'auto' (the property's quantifier) -/
+theorem tetra_inout_truthful (io : InOut) (f : Field) (v0 v1 v2 v3 pol x : V3 ℝ) : letI := realNum μ
+    (io = .inside → tetraInside v0 v1 v2 v3 x = true) → (io = .outside → tetraInside v0 v1 v2 v3 x = false) →
+    bhjmTetraIO io f v0 v1 v2 v3 pol x = bhjmTetra f v0 v1 v2 v3 pol x := by
+  intro hi ho
+  rw [tetraIO_wrapH μ, tetra_wrapH' μ]
+  cases io
+  · rfl
+  · simp only [pointInsideIO, hi rfl]
+  · simp only [pointInsideIO, ho rfl]
+  · rfl
+end
+
+/-! TriangularMesh -/
+
+/-- the verdict `BHJM_magnet_trimesh` uses for a row under `in_out` -/
+def insideIO {M : Type} (io : InOut) (inside : M → V3 ℝ → Bool) : M → V3 ℝ → Bool :=
+  fun m x => match io with
+    | .auto => inside m x
+    | .inside => true
+    | _ => false
+
+section
+variable (μ : ℝ)
+
+/-- the batch function with `in_out` is, row by row, the one-row function with the verdict `insideIO` — every row gets
+its own sheets, observer, polarization (batches of any composition) -/
+theorem trimesh_inout_rowwise {M : Type} [DecidableEq M] (io : InOut) (f : Field) (meshId : MeshRow ℝ → M)
+    (inside : M → V3 ℝ → Bool) (rows : List (MeshRow ℝ)) : letI := realNum μ
+    bhjmTrimeshIO io f meshId inside rows = rows.map (bhjmTrimeshRow f meshId (insideIO io inside)) := by
+  let _ := realNum μ
+  cases io
+  case auto => exact bhjmTrimesh_rowwise f meshId inside rows
+  all_goals
+    cases f <;>
+      simp only [bhjmTrimeshIO, meshSheets_rowwise, zip_map_self, List.map_map] <;>
+      (apply List.map_congr_left; intro r _; simp [bhjmTrimeshRow, insideIO, Function.comp])
+
+/-- **TriangularMesh, all modes**: every row of the batch satisfies B = μ₀H + J and J = μ₀M, whatever `in_out` is -/
+theorem trimesh_inout_consistent (hμ : μ ≠ 0) {M : Type} (io : InOut) (meshId : MeshRow ℝ → M)
+    (inside : M → V3 ℝ → Bool) (r : MeshRow ℝ) : letI := realNum μ
+    bhjmTrimeshRow .B meshId (insideIO io inside) r =
+      vs μ (bhjmTrimeshRow .H meshId (insideIO io inside) r) + bhjmTrimeshRow .J meshId (insideIO io inside) r ∧
+    bhjmTrimeshRow .J meshId (insideIO io inside) r = vs μ (bhjmTrimeshRow .M meshId (insideIO io inside) r) :=
+  trimesh_row_consistent μ hμ meshId _ r
+
+/-- 'inside': J = polarization for EVERY row; 'outside' (and any other value that is not 'auto'): J = M = 0 -/
+theorem trimesh_inout_inside_outside {M : Type} (meshId : MeshRow ℝ → M) (inside : M → V3 ℝ → Bool) (r : MeshRow ℝ) :
+    let _ := realNum μ
+    bhjmTrimeshRow .J meshId (insideIO .inside inside) r = r.pol ∧
+    bhjmTrimeshRow .M meshId (insideIO .inside inside) r = vd r.pol μ ∧
+    bhjmTrimeshRow .J meshId (insideIO .outside inside) r = zero3 ∧
+    bhjmTrimeshRow .M meshId (insideIO .outside inside) r = zero3 ∧
+    bhjmTrimeshRow .J meshId (insideIO .other inside) r = zero3 := by
+  refine ⟨?_, ?_, rfl, ?_, rfl⟩
+  · apply V3.ext' <;> simp [bhjmTrimeshRow, insideIO, zero3, n]
+  · apply V3.ext' <;> simp [bhjmTrimeshRow, insideIO, zero3, n, vd]
+  · apply V3.ext' <;> simp [bhjmTrimeshRow, insideIO, zero3, n, vd]
+
+/-- a truthful override changes nothing (TriangularMesh row) -/
+theorem trimesh_inout_truthful {M : Type} (io : InOut) (f : Field) (meshId : MeshRow ℝ → M) (inside : M → V3 ℝ → Bool)
+    (r : MeshRow ℝ) (hio : io ≠ .other) : letI := realNum μ
+    (io = .inside → inside (meshId r) r.obs = true) → (io = .outside → inside (meshId r) r.obs = false) →
+    bhjmTrimeshRow f meshId (insideIO io inside) r = bhjmTrimeshRow f meshId inside r := by
+  intro hi ho
+  cases io
+  · rfl
+  · cases f <;> simp only [bhjmTrimeshRow, insideIO, hi rfl]
+  · cases f <;> simp only [bhjmTrimeshRow, insideIO, ho rfl] <;> rfl
+  · exact absurd rfl hio
+end
+
+/-! Cuboid, Sphere, Cylinder, CylinderSegment: getBH_level1 removes the keyword -/
+
+section
+variable (μ : ℝ)
+
+/-- for the four classes whose core functions have no parameter `in_out`, level1 calls the function exactly as without the
+keyword, whatever its value — so every theorem about `bhjmCuboid`, `bhjmSphere`, `bhjmCylinder`, `bhjmCylSegInternal`
+('auto') is a theorem about all modes -/
+theorem inout_ignored (io : InOut) (f : Field) : letI := realNum μ
+    (∀ dim pol x : V3 ℝ, cuboidL1 io f dim pol x = some (bhjmCuboid f dim pol x)) ∧
+    (∀ (d : ℝ) (pol x : V3 ℝ), sphereL1 io f d pol x = some (bhjmSphere f d pol x)) ∧
+    (∀ (fuel : ℕ) (dim : ℝ × ℝ) (pol x : V3 ℝ), cylinderL1 io fuel f dim pol x = some (bhjmCylinder fuel f dim pol x)) := by
+  refine ⟨fun _ _ _ => ?_, fun _ _ _ => ?_, fun _ _ _ _ => ?_⟩ <;>
+    simp [cuboidL1, sphereL1, cylinderL1, hasInOut_values]
+
+theorem inout_ignored_cylseg (S : SegSpecial) (io : InOut) (fuel : ℕ) (f : Field) (x : V3 ℝ) (r1 r2 h p1 p2 : ℝ) (pol : V3 ℝ) :
+    @cylSegL1 ℝ (realNumX μ S) io fuel f x r1 r2 h p1 p2 pol =
+      some (@bhjmCylSegInternal ℝ (realNumX μ S) fuel f x r1 r2 h p1 p2 pol) := by
+  simp [cylSegL1, hasInOut_values]
+
+/-- and the two classes that do have it are called with it -/
+theorem inout_passed (io : InOut) (f : Field) : letI := realNum μ
+    (∀ v0 v1 v2 v3 pol x : V3 ℝ, tetraL1 io f v0 v1 v2 v3 pol x = some (bhjmTetraIO io f v0 v1 v2 v3 pol x)) ∧
+    (∀ {M : Type} [DecidableEq M] (meshId : MeshRow ℝ → M) (inside : M → V3 ℝ → Bool) (rows : List (MeshRow ℝ)),
+      trimeshL1 io f meshId inside rows = some (bhjmTrimeshIO io f meshId inside rows)) := by
+  refine ⟨fun _ _ _ _ _ _ => ?_, fun _ _ _ => ?_⟩ <;> simp [tetraL1, trimeshL1, hasInOut_values]
+
+/-- **B = μ₀·H + J and J = μ₀·M for all modes of `in_out` (also a misspelt value) and all six modelled magnet wrappers as
+getBH_level1 calls them**, generic μ ≠ 0: Cuboid, Sphere at every observer; Tetrahedron at every observer; TriangularMesh
+for every row of every batch; Cylinder and CylinderSegment whenever the four values are returned (`none` = a `cel0` call
+failed / NaN row, see `cylinder_consistent_total`, `cylseg_consistent`) -/
+theorem inout_consistent (hμ : μ ≠ 0) (io : InOut) : letI := realNum μ
+    (∀ dim pol x : V3 ℝ, ∃ b h j m, cuboidL1 io .B dim pol x = some b ∧ cuboidL1 io .H dim pol x = some h ∧
+      cuboidL1 io .J dim pol x = some j ∧ cuboidL1 io .M dim pol x = some m ∧ b = vs μ h + j ∧ j = vs μ m) ∧
+    (∀ (d : ℝ) (pol x : V3 ℝ), ∃ b h j m, sphereL1 io .B d pol x = some b ∧ sphereL1 io .H d pol x = some h ∧
+      sphereL1 io .J d pol x = some j ∧ sphereL1 io .M d pol x = some m ∧ b = vs μ h + j ∧ j = vs μ m) ∧
+    (∀ v0 v1 v2 v3 pol x : V3 ℝ, ∃ b h j m, tetraL1 io .B v0 v1 v2 v3 pol x = some b ∧ tetraL1 io .H v0 v1 v2 v3 pol x = some h ∧
+      tetraL1 io .J v0 v1 v2 v3 pol x = some j ∧ tetraL1 io .M v0 v1 v2 v3 pol x = some m ∧ b = vs μ h + j ∧ j = vs μ m) ∧
+    (∀ (fuel : ℕ) (dim : ℝ × ℝ) (pol x : V3 ℝ) (b h j m : V3 ℝ), cylinderL1 io fuel .B dim pol x = some (some b) →
+      cylinderL1 io fuel .H dim pol x = some (some h) → cylinderL1 io fuel .J dim pol x = some (some j) →
+      cylinderL1 io fuel .M dim pol x = some (some m) → b = vs μ h + j ∧ j = vs μ m) := by
+  let _ := realNum μ
+  refine ⟨fun dim pol x => ?_, fun d pol x => ?_, fun v0 v1 v2 v3 pol x => ?_, fun fuel dim pol x b h j m hb hh hj hm => ?_⟩
+  · exact ⟨_, _, _, _, (inout_ignored μ io .B).1 _ _ _, (inout_ignored μ io .H).1 _ _ _, (inout_ignored μ io .J).1 _ _ _,
+      (inout_ignored μ io .M).1 _ _ _, (cuboid_consistent μ hμ dim pol x).1, (cuboid_consistent μ hμ dim pol x).2⟩
+  · exact ⟨_, _, _, _, (inout_ignored μ io .B).2.1 _ _ _, (inout_ignored μ io .H).2.1 _ _ _, (inout_ignored μ io .J).2.1 _ _ _,
+      (inout_ignored μ io .M).2.1 _ _ _, (sphere_consistent μ hμ d pol x).1, (sphere_consistent μ hμ d pol x).2⟩
+  · exact ⟨_, _, _, _, (inout_passed μ io .B).1 _ _ _ _ _ _, (inout_passed μ io .H).1 _ _ _ _ _ _, (inout_passed μ io .J).1 _ _ _ _ _ _,
+      (inout_passed μ io .M).1 _ _ _ _ _ _, (tetra_inout_consistent μ hμ io v0 v1 v2 v3 pol x).1,
+      (tetra_inout_consistent μ hμ io v0 v1 v2 v3 pol x).2⟩
+  · rw [(inout_ignored μ io _).2.2] at hb hh hj hm
+    simp only [Option.some.injEq] at hb hh hj hm
+    obtain ⟨j', m', ej, em, ejm, _, hall⟩ := cylinder_consistent μ hμ fuel dim pol x
+    rw [ej] at hj; rw [em] at hm
+    simp only [Option.some.injEq] at hj hm
+    subst hj hm
+    exact ⟨hall b h hb hh, ejm⟩
+
+/-- CylinderSegment (the class's function `BHJM_cylinder_segment_internal`), all modes -/
+theorem inout_consistent_cylseg (hμ : μ ≠ 0) (S : SegSpecial) (io : InOut) (fuel : ℕ) (x : V3 ℝ) (r1 r2 h p1 p2 : ℝ)
+    (pol b hh j m : V3 ℝ) :
+    @cylSegL1 ℝ (realNumX μ S) io fuel .B x r1 r2 h p1 p2 pol = some (some b) →
+    @cylSegL1 ℝ (realNumX μ S) io fuel .H x r1 r2 h p1 p2 pol = some (some hh) →
+    @cylSegL1 ℝ (realNumX μ S) io fuel .J x r1 r2 h p1 p2 pol = some (some j) →
+    @cylSegL1 ℝ (realNumX μ S) io fuel .M x r1 r2 h p1 p2 pol = some (some m) →
+    b = @vs ℝ (realNum μ) μ hh + j ∧ j = @vs ℝ (realNum μ) μ m := by
+  intro hb hH hj hm
+  rw [inout_ignored_cylseg] at hb hH hj hm
+  simp only [Option.some.injEq] at hb hH hj hm
+  exact cylseg_internal_consistent μ hμ S fuel x r1 r2 h p1 p2 pol b hh j m hb hH hj hm
+
+/- FULL (what one might expect of the keyword): with `in_out='inside'` J = polarization at every observer for EVERY magnet
+class.  Not what the code does for Cuboid / Cylinder / CylinderSegment / Sphere: the keyword never reaches their functions.
+Witness: an observer outside a Cuboid, 'inside' requested, J = 0.  (The property only quantifies over truthful overrides,
+for which nothing changes — `inout_ignored`, `tetra_inout_truthful`, `trimesh_inout_truthful`.) -/
+theorem cuboid_inside_override_is_ignored : letI := realNum 1
+    cuboidL1 .inside .J (⟨2, 2, 2⟩ : V3 ℝ) ⟨0, 0, 1⟩ ⟨5, 0, 0⟩ = some zero3 := by
+  let _ := realNum 1
+  rw [(inout_ignored 1 .inside .J).1]
+  simp [bhjmCuboid, wrapB, cuboidMasks, n]
+  norm_num
+end
+
+-- non-vacuity: an observer OUTSIDE the unit tetrahedron, 'inside' requested: J is the polarization there (and 'auto' gives 0)
+example : letI := realNum 1
+    bhjmTetraIO .inside .J (⟨0, 0, 0⟩ : V3 ℝ) ⟨1, 0, 0⟩ ⟨0, 1, 0⟩ ⟨0, 0, 1⟩ ⟨0, 0, 1⟩ ⟨1, 1, 1⟩ = ⟨0, 0, 1⟩ ∧
+    bhjmTetraIO .auto .J (⟨0, 0, 0⟩ : V3 ℝ) ⟨1, 0, 0⟩ ⟨0, 1, 0⟩ ⟨0, 0, 1⟩ ⟨0, 0, 1⟩ ⟨1, 1, 1⟩ = zero3 := by
+  refine ⟨rfl, ?_⟩
+  simp [bhjmTetraIO, pointInsideIO, tetraInside, det3, n]
+
+end MagpyVerif.C02
+
+namespace MagpyVerif.C02
+open MagpyVerif MagpyVerif.Level2
+
+/-! ### J and M in the observer frame (composition with C03 / C04), over the pipeline model `Level2.tensor` -/
+section jframe
+variable {G V : Type} [Group G] [AddCommGroup V] [DistribMulAction G V]
+
+/-- getBH_level1 for a homogeneous magnet and field J (or M): with the magnet at position `p` and orientation `R` (path
+index `m`), the value at the global position `x` is the polarization ROTATED BY THE MAGNET'S ORIENTATION if `x`, taken into
+the magnet's frame, lies in the body — and zero otherwise.  `body` / `pol` are the local-frame facts the kernel theorems
+provide (`sphere_j_is_indicator`, `cylinder_j_is_indicator`, `cuboid_j_is_indicator`, `tetra_j_is_indicator`; M: `pol/μ₀`). -/
+theorem j_level1 (s : Src G V) (body : V → Bool) (pol : V) (hF : s.F = indicatorField body pol) (m : Nat) (x : V)
+    (R : G) (p : V) (hR : clampGet s.ori m = some R) (hp : clampGet s.pos m = some p) :
+    level1 s m x = if body (R⁻¹ • (x - p)) then R • pol else 0 := by
+  simp only [level1, hR, hp, hF, indicatorField]
+  split_ifs <;> simp
+
+/-- what the sensor loop does to a value of a right-handed sensor whose orientation at path index `m` is `S` -/
+theorem sensT_right [BEq G] (flipX : V → V) (k : Sens G V) (m : Nat) (S : G) (hS : clampGet k.ori m = some S)
+    (hright : k.left = false) (v : V) : sensT flipX k m v = S⁻¹ • v := by
+  simp [sensT, hS, hright]
+
+/-- **J in the observer frame, one value**: what the library returns for (magnet `s`, path index `m`, right-handed sensor
+`k` with orientation `S` there, pixel at global position `x`) is `(S⁻¹·R)·pol` inside the body and 0 outside -/
+theorem j_in_observer_frame [BEq G] (flipX : V → V) (s : Src G V) (body : V → Bool) (pol : V)
+    (hF : s.F = indicatorField body pol) (k : Sens G V) (m : Nat) (x : V) (R S : G) (p : V)
+    (hR : clampGet s.ori m = some R) (hp : clampGet s.pos m = some p) (hS : clampGet k.ori m = some S)
+    (hright : k.left = false) :
+    specValue flipX (.leaf s) k m x = if body (R⁻¹ • (x - p)) then (S⁻¹ * R) • pol else 0 := by
+  simp only [specValue, Entry.leaves, List.map_cons, List.map_nil, List.sum_cons, List.sum_nil, add_zero]
+  rw [sensT_right flipX k m S hS hright, j_level1 s body pol hF m x R p hR hp]
+  split_ifs
+  · rw [mul_smul]
+  · rw [smul_zero]
+
+/-- **J in the observer frame, end to end**: the tensor `Level2.tensor` (what `getBH_level2` computes before pixel_agg /
+sumup / squeeze, and what the `level2` / `level2-jm` streams compare with the real getJ / getM) of ONE magnet and any
+number of right-handed sensors with any orientation / position paths and pixels is, entry by entry,
+`(S_k(m)⁻¹ · R(m)) · pol` if the pixel's global position lies in the body as placed at path index `m`, else 0. -/
+theorem j_in_observer_frame_end_to_end [BEq G] [LawfulBEq G] (flipX : V → V) (s : Src G V) (body : V → Bool) (pol : V)
+    (hF : s.F = indicatorField body pol) (hso : s.ori ≠ []) (hsp : s.pos ≠ [])
+    (sensors : List (Sens G V)) (hs : ∀ k ∈ sensors, k.WF) (hright : ∀ k ∈ sensors, k.left = false) :
+    tensor flipX [.leaf s] sensors =
+      [(List.range (pathLen [s] sensors)).map fun m => sensors.map fun k => (pixPos k m).map fun x =>
+        match clampGet s.ori m, clampGet s.pos m, clampGet k.ori m with
+        | some R, some p, some S => if body (R⁻¹ • (x - p)) then (S⁻¹ * R) • pol else 0
+        | _, _, _ => 0] := by
+  rw [tensor_eq_spec flipX _ sensors (by intro e he; rw [List.mem_singleton.mp he]; simp [Entry.leaves]) hs]
+  simp only [specTensor, List.map_cons, List.map_nil, List.flatMap_cons, List.flatMap_nil, Entry.leaves, List.append_nil]
+  congr 1
+  apply List.map_congr_left
+  intro m _
+  apply List.map_congr_left
+  intro k hk
+  apply List.map_congr_left
+  intro x _
+  obtain ⟨R, hR⟩ := clampGet_isSome s.ori hso m
+  obtain ⟨p, hp⟩ := clampGet_isSome s.pos hsp m
+  obtain ⟨S, hS⟩ := clampGet_isSome k.ori (hs k hk).1 m
+  rw [j_in_observer_frame flipX s body pol hF k m x R S p hR hp hS (hright k hk), hR, hp, hS]
+end jframe
+
+/-- **on the carrier the driver computes with** (`M3 Int`, `V3 Int`; `⁻¹` = transpose — not a group): a scene whose
+orientation matrices are octahedral is the image `toM3` of a scene over the group `Oct`, and the driver's `M3 Int`
+evaluation of the pipeline — the one the `level2-jm` stream compares with the real getJ / getM of rotated Cuboids read by
+rotated sensors — returns the tensor of the statement above, computed in `Oct` -/
+theorem j_in_observer_frame_on_driver_carrier (flipX : V3 Int → V3 Int) (s : Src Oct (V3 Int)) (body : V3 Int → Bool)
+    (pol : V3 Int) (hF : s.F = indicatorField body pol) (hso : s.ori ≠ []) (hsp : s.pos ≠ [])
+    (sensors : List (Sens Oct (V3 Int))) (hs : ∀ k ∈ sensors, k.WF) (hright : ∀ k ∈ sensors, k.left = false) :
+    tensor flipX [Entry.toM3 (.leaf s)] (sensors.map Sens.toM3) =
+      [(List.range (pathLen [s] sensors)).map fun m => sensors.map fun k => (pixPos k m).map fun x =>
+        match clampGet s.ori m, clampGet s.pos m, clampGet k.ori m with
+        | some R, some p, some S => if body (R⁻¹ • (x - p)) then (S⁻¹ * R) • pol else 0
+        | _, _, _ => 0] := by
+  have h := tensor_at_Oct_eq_at_M3Int flipX [.leaf s] sensors
+  simp only [List.map_cons, List.map_nil] at h
+  rw [h]
+  refine (j_in_observer_frame_end_to_end flipX s body pol hF hso hsp sensors hs hright).trans ?_
+  congr 2
+  funext m
+  congr 1
+  funext k
+  congr 1
+  funext x
+  rcases clampGet s.ori m with _ | R <;> rcases clampGet s.pos m with _ | p <;> rcases clampGet k.ori m with _ | S <;> rfl
+
+-- non-vacuity: a box magnet of edge lengths 3, 1, 1 rotated by 90° about z, polarization along its local x; the point
+-- (0, 1, 0) lies in the ROTATED body (its long axis now points along y) and a sensor rotated by 90° about z reads the
+-- polarization along its own x axis: S⁻¹·R = 1
+open Level2.DriverExample in
+example : level1 (G := M3 Int) (V := V3 Int)
+    ⟨[⟨0, 0, 0⟩], [rotZ90], indicatorField (boxBody ⟨3, 1, 1⟩) ⟨1, 0, 0⟩⟩ 0 ⟨0, 1, 0⟩ = ⟨0, 1, 0⟩ ∧
+    level1 (G := M3 Int) (V := V3 Int)
+    ⟨[⟨0, 0, 0⟩], [rotZ90], indicatorField (boxBody ⟨3, 1, 1⟩) ⟨1, 0, 0⟩⟩ 0 ⟨1, 0, 0⟩ = 0 := by decide
+
 end MagpyVerif.C02
